@@ -31,18 +31,17 @@ warnings.simplefilter("ignore")
 ID = "C05"
 LEVEL = "exploration"
 EXHAUSTIVE = True
-RULE = ("every multiset (size <= bound) of trees of U(n) (all rooted shapes on n labelled leaves; for the unrooted "
-        "n=5 triples one drawing per unrooted topology) over one shared namespace x rooting {rooted, unrooted; "
-        "undefined for n<=4 pairs} x tree-weight vectors {None, {1,2}^k, {0.5,3}^k} x use_tree_weights {T,F} x "
-        "edge-length pattern {position-dependent integers, none, non-dyadic, ultrametric} x namespace configuration "
-        "{exact, reversed, lowest-bit-removed}; per collection the complete threshold menu {every attainable "
-        "frequency, every midpoint between consecutive attainable frequencies (and below the lowest), 1/2, 1.0, the "
-        "library default} x every consensus route; every member (for <=2-tree collections every tree of U(n)) as "
-        "summarisation and collapse target x summarisation settings; both credibility scores via TreeArray and "
-        "TreeList. A case = one (collection, route) frequency table, one (collection, threshold, route) consensus "
-        "tree, one (collection, target, setting, route) summarisation, one (collection, target, threshold, route) "
-        "collapse, or one (collection, score, route) credibility tree; non-trivial = the collection contains at "
-        "least one non-trivial split")
+RULE = ("every multiset (size <= bound) of trees of U(n) (all rooted shapes on n labelled leaves, n <= 5; bounds per layer "
+        "in coverage.bounds) over one shared namespace x rooting {rooted, unrooted; undefined for n <= 4, <= 2 trees} x "
+        "tree-weight vectors {None, {1,2}^k, {0.5,3}^k} x use_tree_weights {T,F} x edge-length pattern {position-dependent "
+        "integers, none, non-dyadic, ultrametric} x namespace configuration {exact, reversed, lowest-bit-removed}; per "
+        "collection the complete threshold menu {every attainable frequency, every midpoint between consecutive attainable "
+        "frequencies (and below the lowest), 1/2, 1.0, the library default} x consensus routes {TreeArray.consensus_tree, "
+        "SplitDistribution.consensus_tree, TreeList.consensus}; every member (for <= 2-tree collections on <= 4 leaves every "
+        "tree of U(n)) as summarisation and collapse target x summarisation settings; both credibility scores via TreeArray "
+        "and TreeList. A case = one (collection, route) frequency table, one (collection, threshold, route) consensus tree, one "
+        "(collection, target, setting, route) summarisation, one (collection, target, threshold, route) collapse, or one "
+        "(collection, score, route) credibility tree; non-trivial = the collection contains at least one non-trivial split")
 ASSUMPTIONS = [
     "reference bit index of a taxon = order of accession recorded by the harness (mc/build.make_namespace); the key under which "
     "a split is looked up is the clade bitmask (rooted) or the bitmask of the side not containing the lowest-bit leaf (unrooted), "
@@ -59,13 +58,15 @@ ASSUMPTIONS = [
 ]
 MANIFEST = {
     "engine": "E1-ENUM",
-    "text": ("For every multiset of up to 3 trees (thorough: 4) on 4 labelled leaves and up to 2 (thorough: 3 binary) on 5 leaves, "
-             "both rootings, every weight vector over {1,2} / {0.5,3}, with and without use_tree_weights: split frequencies equal the "
-             "weighted fractions and absent splits are not reported; at every threshold of the complete menu (attainable frequencies, "
-             "midpoints, 1/2, 1, default) every consensus route returns a tree that spans the namespace once, has the inputs' rooting, "
-             "is exactly the set {f >= t} above one half and a maximal, greedy-consistent compatible set below; support, edge-length and "
-             "node-age summaries on every target equal the reference statistics; collapsing removes exactly the edges below the "
-             "threshold and keeps root-to-tip distances; credibility trees have the topology of an argmax of the reported scores."),
+    "text": ("For every multiset of up to 3 trees (thorough: 4) of all 26 shapes on 4 labelled leaves, every pair of binary (thorough: "
+             "all 236) rooted shapes and every multiset of up to 3 unrooted topologies on 5 leaves (thorough: also every rooted binary "
+             "triple), every weight vector over {1,2} / {0.5,3} with and without use_tree_weights: split frequencies equal the weighted "
+             "fractions and no absent split is reported, also when the table is read between accessions; at every threshold of the "
+             "complete menu (attainable frequencies, midpoints, 1/2, 1, default) the consensus tree spans the namespace once, has the "
+             "inputs' rooting, is exactly {f >= t} above one half and a maximal compatible set chosen in decreasing frequency order "
+             "below; support, edge-length and node-age summaries on every target equal the reference statistics under every "
+             "summarisation setting; collapsing removes exactly the edges below the threshold and keeps root-to-tip distances; "
+             "credibility trees have the topology of an argmax of the scores the collection reports."),
     "note": "trusted: mc/ref.py clade/split/length arithmetic, harness accession log for bit indices, C01 for the split bitmask convention",
     "technique": "bounded-exhaustive enumeration against a set-based reference model",
 }
@@ -920,10 +921,11 @@ def check_collection(cfg, ctx):
     # ---- (5) credibility ------------------------------------------------------------------------------
     if P["mcc"] and ok_ta:
         check_mcc(c, tl, ta, ctx)
-    ctx.sample({"trees": [ref.to_newick(sn, c.has_lengths) for sn in c.sns], "rooted": c.rooted, "weights": c.weights,
-                "use_tree_weights": c.utw, "thresholds": [t if t == "default" else round(t, 6) for t in menu],
-                "frequencies": dict((c.show(s), round(f, 6)) for s, f in sorted(c.freq.items(), key=lambda kv: c.show(kv[0]))
-                                    if c.is_nontrivial(s)), "profile": c.profile}, 2)
+    if nt and len(c.shapes) >= 2:
+        ctx.sample({"trees": [ref.to_newick(sn, c.has_lengths) for sn in c.sns], "rooted": c.rooted, "weights": c.weights,
+                    "use_tree_weights": c.utw, "thresholds": [t if t == "default" else round(t, 6) for t in menu],
+                    "frequencies": dict((c.show(s), round(f, 6)) for s, f in sorted(c.freq.items(), key=lambda kv: c.show(kv[0]))
+                                        if c.is_nontrivial(s)), "profile": c.profile}, 1)
 
 
 # ---------------------------------------------------------------------------
@@ -1002,7 +1004,7 @@ def chunks(tier):
     for rooted in (True, False):
         for k in range(1, kmax4 + 1):
             total = _nmultisets(26, k)
-            step = {1: 13, 2: 12, 3: 40, 4: 150}[k]
+            step = {1: 13, 2: 12, 3: 40, 4: 80}[k]
             for lo, hi in _slices(total, step):
                 out.append({"layer": "A", "n": 4, "k": [k], "rooted": rooted, "ns": "exact", "lens": ["pos"], "pool": "all",
                             "profile": "full" if k <= 2 else "std", "lo": lo, "hi": hi})
@@ -1033,7 +1035,7 @@ def chunks(tier):
                         "profile": "lean", "lo": lo, "hi": hi})
     if not q:
         total = _nmultisets(len(pool(5, "binary")), 3)
-        for lo, hi in _slices(total, 400):
+        for lo, hi in _slices(total, 200):
             out.append({"layer": "A", "n": 5, "k": [3], "rooted": True, "ns": "exact", "lens": ["pos"], "pool": "binary",
                         "profile": "lean", "lo": lo, "hi": hi})
     # weights
@@ -1042,7 +1044,7 @@ def chunks(tier):
         for rooted in (True, False):
             for k in (1, 2, 3):
                 total = _nmultisets(np_, k)
-                for lo, hi in _slices(total, {1: 30, 2: 30, 3: 40}[k]):
+                for lo, hi in _slices(total, {1: 30, 2: 30, 3: 40 if q else 16}[k]):
                     out.append({"layer": "B", "n": n, "k": [k], "rooted": rooted, "pool": "all", "lo": lo, "hi": hi, "mode": tier})
     # ages (rooted, ultrametric)
     for n in ((3, 4) if q else (3, 4, 5)):
@@ -1053,7 +1055,7 @@ def chunks(tier):
             if k == 3 and q and n == 4:
                 pl = "binary"
             total = _nmultisets(len(pool(n, pl)), k)
-            for lo, hi in _slices(total, 60 if n < 5 else 200):
+            for lo, hi in _slices(total, 60 if n < 5 else 100):
                 out.append({"layer": "C", "n": n, "k": [k], "rooted": True, "pool": pl, "lo": lo, "hi": hi})
     return out
 
